@@ -20,6 +20,15 @@ type Leaf struct {
 	B bool
 }
 
+// Uni has field names whose first letter is not ASCII (reachable only as quoted identifiers; the
+// first letter is still matched after upper-casing it).
+type Uni struct {
+	Élan  string
+	Ñu    float64
+	Ωmega bool
+	Z     string
+}
+
 type Inner struct {
 	Name    string
 	Num     float64
@@ -44,6 +53,8 @@ type Outer struct {
 	Flts  []float64
 	Any   interface{}
 	Grid  [][]float64
+	Uni   Uni
+	PUni  *Uni
 }
 
 // Embedding and an unexported field: outside the equivalence family, used by
@@ -63,7 +74,7 @@ type WithEmbedded struct {
 
 // StructFieldNames lists every field name of the family (capitalised).
 var StructFieldNames = []string{"S", "F", "B", "Name", "Num", "Flag", "Leaf", "PLeaf", "Tags", "Nums", "Leaves", "PLeaves",
-	"ID", "Count", "On", "In", "PIn", "Ins", "PIns", "Strs", "Flts", "Any", "Grid"}
+	"ID", "Count", "On", "In", "PIn", "Ins", "PIns", "Strs", "Flts", "Any", "Grid", "Uni", "PUni", "Élan", "Ñu", "Ωmega", "Z"}
 
 func lowerFirst(s string) string {
 	r, n := utf8.DecodeRuneInString(s)
@@ -185,6 +196,12 @@ func StructDoc(r *gen.Rand, form int) interface{} {
 		if !r.Chance(1, 3) {
 			in := mkInner(r)
 			o.PIn = &in
+		}
+		o.Uni = Uni{Élan: gen.Pick(r, []string{"", "é", "x"}), Ñu: gen.Pick(r, []float64{0, 1, 2}), Ωmega: r.Bool(), Z: "z"}
+		if r.Bool() {
+			u := o.Uni
+			u.Z = "pz"
+			o.PUni = &u
 		}
 		for k := r.Intn(3); k > 0; k-- {
 			o.Ins = append(o.Ins, mkInner(r))
